@@ -544,8 +544,10 @@ def _nametest(draw, ver, kw=True):
     k = draw(st.integers(0, 19))
     if k < 14 or not kw:
         return ['name', draw(st.sampled_from(NAMES))]
-    if k < 17:
+    if k < 16:
         return ['wild']
+    if k < 18:
+        return ['name', draw(st.sampled_from(KW_SAMPLE))]      # keyword spelling + '.', '-' or name characters: one NCName
     return ['name', draw(st.sampled_from(KEYWORD_NAMES))]
 
 
@@ -1324,3 +1326,47 @@ def pair_space(ver):
                 ops = [list(_PAIR_LEAVES[(j + oi + 2) % 5]) for j in range(on)]
                 ops[k] = inner
                 yield f'{ol}[{k}]<-{il}', ob(ops)
+
+
+# --------------------------------------------------------------------------
+# Keyword-prefixed NCNames: keyword spelling + '.', '-' or further name characters is ONE name (enumerated space)
+# --------------------------------------------------------------------------
+KEYWORD_SPELLINGS = ['or', 'and', 'div', 'mod', 'idiv', 'to', 'eq', 'ne', 'lt', 'le', 'gt', 'ge', 'is', 'union', 'intersect', 'except',
+                     'instance', 'of', 'treat', 'as', 'cast', 'castable', 'if', 'then', 'else', 'for', 'in', 'return', 'some', 'every',
+                     'satisfies', 'let', 'child', 'descendant', 'parent', 'ancestor', 'following-sibling', 'preceding-sibling',
+                     'following', 'preceding', 'attribute', 'self', 'descendant-or-self', 'ancestor-or-self', 'namespace', 'text',
+                     'node', 'comment', 'processing-instruction', 'element', 'document-node', 'schema-element', 'schema-attribute',
+                     'item', 'empty-sequence', 'namespace-node', 'function', 'map', 'array', 'count', 'not', 'string', 'position',
+                     'last', 'true', 'abs', 'data', 'reverse', 'sort', 'head']
+KW_SUFFIXES = ['.x', '-2', '-a', '_x', '1', 'x', '.', '-']
+KW_SAMPLE = ['div.x', 'mod.y', 'or.b', 'and.id', 'to.do', 'if.x', 'for.each', 'union.all', 'cast.as', 'eq.1', 'is-a', 'div-2', 'and_x',
+             'or1', 'text.node', 'child.x', 'map.entry', 'instance.of', 'le-', 'ge.']
+
+
+def kw_space(ver):
+    """yield (label, AST): every keyword spelling x suffix as element / attribute / variable name, path step, predicate,
+    argument, unary operand, and on both sides of binary operators (6 operators per name, rotating over all of them)"""
+    kws, sufs = KEYWORD_SPELLINGS, KW_SUFFIXES
+    ops = sorted(BINOPS[ver])
+    for ki, k in enumerate(kws):
+        for si, suf in enumerate(sufs):
+            n1 = ['name', k + suf]
+            n2 = ['name', kws[(ki + 7) % len(kws)] + sufs[(si + 1) % len(sufs)]]
+            lab = k + suf
+            yield lab + ':name', n1
+            yield lab + ':attr', ['bin', '=', ['attr', n1], ['int', '1']]
+            yield lab + ':var', ['bin', '+', ['var', k + suf], ['var', n2[1]]]
+            yield lab + ':step', ['path', '/', ['name', 'a'], n1]
+            yield lab + ':path', ['path', '//', n1, n2]
+            yield lab + ':pred', ['pred', n1, n2]
+            yield lab + ':arg', ['call', 'count', [n1]]
+            yield lab + ':neg', ['neg', '-', n1]
+            yield lab + ':axis', ['axis', 'child', n1]
+            if ver != '1.0':
+                yield lab + ':type', ['type', 'instance', n1, 'xs:integer', '']
+                yield lab + ':seq', ['seq', [n1, n2]]
+                yield lab + ':if', ['if', n1, n2, n1]
+                yield lab + ':for', ['for', [[k + suf, n2]], n1]
+            for j in range(6):
+                op = ops[(ki + si * 6 + j) % len(ops)]
+                yield f'{lab}:bin:{op}', ['bin', op, n1, n2]
